@@ -117,6 +117,6 @@ def run(repo, tier):
     check_structure(rep, facts, rel, 'R12.5')
     from .. import labelrules as _LB
     _LB.check_live_env(rep, facts, 'R12.6.live-env')
-    rep.floor('criteria rules', 27)
+    rep.floor('criteria rules', 20)
     rep.floor('constructor arguments classified', 40)
     return rep
